@@ -18,7 +18,7 @@ BODIES = [b"keep;\r\n", b"", b"OK\r\n", b"OK \"done\"\r\nkeep;\r\n", b"NO\r\n", 
           b'"keep;"\r\n', b'"OK"', b'"a \\"b\\" \\\\ c"\r\n', b'""\r\n', b'"two"\r\n"lines"\r\n']
 NAMES = [b"a", b"main", b'q"uote', b"back\\slash", b"{5}", b"{3+}", b"OK", b"NO x", b"BYE", b"ACTIVE", b"x ACTIVE", b'"', b"\xc3\xa9t\xc3\xa9", b"sp ace", b"a b c", b"\\\"",
          b'my "best" rules', b'keep "this" ACTIVE', b'two "q" and "r"', b"form\x0cfeed",
-         b'"draft', b"it\"s", b'"a\\"b']
+         b'"draft', b"it\"s", b'"a\\"b', b" drafts", b"archive ", b"  ", b" OK", b"\ttab"]
 
 
 def norm(body):
